@@ -230,7 +230,7 @@ def _configure():
         legs=[EXPLORE, INTERLEAVE, SQLCONF, HTTP, XCHECK])
     cfg("C02", "proof", ["A1", "A4", "A6", "A8", "A11", "A12", "A13"], assumptions=[A["A1"], A["A8"]], not_reached=[NR_SQL, NR_HTTP],
         explanation="postconditions av.accept_iff / av.accepted_state / av.rejected / av.id_from_v4 / av.ack_after_commit of the real Server::add_version, for every abstract pre-state satisfying chain_wf, every parent id, payload and placement of storage faults; enc.av for the HTTP entry point",
-        legs=[EXPLORE, SQLCONF, HTTP, INTERLEAVE, XCHECK])
+        legs=[EXPLORE, SQLCONF, HTTP, INTERLEAVE, FAULTS, XCHECK])
     cfg("C03", "proof", ["A3", "A4", "A5", "A13"], assumptions=[A["A3"], A["A5"], "the reduction from interleavings to the three sequential obligations O1-O3 is a paper argument (DESIGN.md 5.C03), not machine-checked"],
         not_reached=["lock-wait budget / busy timeouts; anything inside SQLite or Mutex; partial overlap inside a transaction is excluded by A3/A5, not checked", NR_SQL],
         explanation="three sequential obligations: O1 every Server operation uses exactly one transaction opened for its own client (E9 twin + may_open); O2 every storage precondition in a handler is established inside the same transaction (Server::txn returns an arbitrary invariant-satisfying state); O3 effects reach durable state only through one commit and success is reported only after it",
@@ -247,7 +247,7 @@ def _configure():
         legs=[EXPLORE, SQLCONF, HTTP])
     cfg("C08", "proof", ["A4", "A6", "A11", "A13"], not_reached=[NR_SQL, NR_HTTP],
         explanation="gcv.found / gcv.split / gcv.nosuch of the real Server::get_child_version share the spec fn accept() with av.accept_iff of Server::add_version; gcv.answer_sound: for every placement of storage failures an answer is given only for an existing client and is \"found\" exactly when the parent has a child; on the SQLite side the child look-up binds (parent id, this client id) and decodes the row by column name (unit U6: dec.child.bound, dec.version)",
-        legs=[EXPLORE, XCHECK])
+        legs=[EXPLORE, FAULTS, XCHECK])
     cfg("C09", "proof", ["A2", "A4", "A9", "A13"], not_reached=[NR_SQL, NR_MEM, "header parsing by actix"],
         explanation="frame clauses: every storage write is a whole-database equation cur' = cur[client := n]; every Server operation changes at most its own client's durable state (*.frame) through a transaction opened for its own id (E9 twin); the client id comes only from the header (hdr.ok); two-run lemma L.isolation",
         legs=[EXPLORE, SQLCONF])
